@@ -189,14 +189,30 @@ def run_point(job):
             pos += argc
         if not ok_seq:
             problems.append("recorder log does not continue the input sequence at argument %d (loss, duplication, reorder or split)" % pos)
-        if big_idx is not None:
-            # Is the big argument really impossible to pass? (per-argument limit, or larger than the whole budget)
-            klimit = max(min(6 * MIB, (stack if stack >= 0 else 1 << 62) // 4), 128 * KIB)
-            fixed = sum(len(k) + len(v) + 2 + 8 for k, v in env.items()) + len(common.REC) + 1 + 24
-            blen = len(args[big_idx]) + 1
-            if not (blen > MAX_ARG_STRLEN or blen + fixed > klimit):
-                raise common.Inconclusive("grid point %s: big argument is not over any OS limit" % p["name"])
-        if big_idx is None:
+        # Which argument (if any) cannot be passed at all? An argument is *definitely oversize* if it exceeds the per-argument
+        # limit, the whole kernel budget, or an explicit -s; it is in a *gray zone* if it is less than 8 KiB below the kernel budget
+        # (xargs' own headroom makes either answer legitimate there).
+        klimit = max(min(6 * MIB, (stack if stack >= 0 else 1 << 62) // 4), 128 * KIB)
+        fixed = sum(len(k) + len(v) + 2 + 8 for k, v in env.items()) + len(common.REC) + 1 + 24
+        slim = int(p["opts"][p["opts"].index("-s") + 1]) if "-s" in p["opts"] else None
+        cmdcost = len(common.REC) + 1
+        first_over = first_gray = None
+        for ai, a in enumerate(args):
+            blen = len(a) + 1
+            if blen < 2000 and (slim is None or slim >= 4096):
+                continue
+            over = blen > MAX_ARG_STRLEN or blen + 8 + fixed > klimit or (slim is not None and cmdcost + blen > slim)
+            gray = not over and blen + 8 + fixed > klimit - 8192
+            if over and first_over is None:
+                first_over = ai
+                break
+            if gray and first_gray is None:
+                first_gray = ai
+        if big_idx is not None and first_over != big_idx and first_gray is None:
+            raise common.Inconclusive("grid point %s: the big argument is not the first over an OS limit (first_over=%r)" % (p["name"], first_over))
+        if first_gray is not None and (first_over is None or first_gray < first_over):
+            st.inc("points_with_argument_in_gray_zone(outcome not judged)")
+        elif first_over is None:
             st.inc("points_all_args_within_limit")
             if rc != 0:
                 problems.append("exit status %r, expected 0" % rc)
@@ -205,11 +221,11 @@ def run_point(job):
         else:
             st.inc("points_with_oversize_argument")
             if rc != 1:
-                problems.append("exit status %r for an argument of %d bytes, expected 1" % (rc, len(args[big_idx])))
+                problems.append("exit status %r for an argument of %d bytes that cannot be passed, expected 1" % (rc, len(args[first_over])))
             if not err.strip():
                 problems.append("no diagnostic for the over-long argument")
-            if ok_seq and pos > big_idx:
-                problems.append("arguments after the over-long one were delivered (%d > %d)" % (pos, big_idx))
+            if ok_seq and pos > first_over:
+                problems.append("arguments after the over-long one were delivered (%d > %d)" % (pos, first_over))
         if problems:
             st.violate("os-limit", None, dict(detail, problems=problems, invocations=len(inv)), rp)
         st.sample({"point": p["name"], "exit": rc, "batches": len(inv), "execve_events": n_exec})
